@@ -948,6 +948,13 @@ def _fixed_rq_configs():
     mk(icu="1." + "2" * 62, ivn="A" * 16)
     mk(ivn=None)
     mk(contexts=[{"abs": "1." + "3" * 62, "ts": ["1." + "4" * 62]}])
+    # (found on the unchanged tree, kept deterministic) a context without transfer syntax; an empty UID under enforcement
+    for route in ("add", "arg"):
+        mk(route=route, contexts=[{"abs": V, "ts": []}], empty_ts_list=True)
+        mk(route=route, enforce=True, contexts=[{"abs": "", "ts": ["1.2.840.10008.1.2"]}], nonconformant_uid="")
+    mk(enforce=True, nonconformant_uid="", ext=[{"k": "sopext", "uid": "", "info": "00"}])
+    mk(enforce=True, nonconformant_uid="", ext=[{"k": "role", "uid": "", "scu": 1, "scp": 1, "via": "build_role"}])
+    mk(enforce=True, nonconformant_uid="1.02.3", contexts=[{"abs": "1.02.3", "ts": ["1.2.840.10008.1.2"]}])
     mk(ext=[{"k": "role", "uid": V, "scu": 1, "scp": 1, "via": "build_role"}, {"k": "async", "inv": 5, "perf": 5},
             {"k": "sopext", "uid": V, "info": "0102"}, {"k": "commonext", "uid": V, "svc": "1.2.840.10008.4.2", "rel": ["1.2.3"]},
             {"k": "uid_rq", "utype": 2, "resp": 1, "prim": "75", "sec": "70"}], answer="ac-release")
